@@ -9,6 +9,8 @@
 //@ gsubst `std::io::SeekFrom` => `SeekFrom` :: R11 stub enum for std::io::SeekFrom (same variants)
 //@ gsubst `merklehash::compute_data_hash` => `compute_data_hash` :: R11 stub for the merklehash dependency (uninterpreted chunk hash)
 //@ gsubst `size_of_val` => `vx_size_of_val` :: R11 stub for std::mem::size_of_val (sizes of the argument types used: u32, [u8;16])
+//@ gsubst `futures::io::AsyncRead` => `AsyncRead` :: R11 stub trait (after R1 the async reader is read sequentially; same ghost model as Read)
+//@ gsubst `size_of::<CasObjectIdent>()` => `vx_size_of_ident()` :: R11 stub: size_of::<[u8; 7]>() == 7 (vstd has no array layout facts)
 //@ gsubst `Vec::with_capacity(` => `vx_with_capacity(` :: R11 stub for Vec::with_capacity carrying the allocation cap of C08 as precondition
 //@ gsubst `u32::from_le_bytes` => `vx_u32_from_le_bytes` :: R11 stub for std u32::from_le_bytes (anonymous-const array type cannot be named in assume_specification; value unconstrained)
 //@ gsubst `DataHash` => `MerkleHash` :: `merklehash::MerkleHash` is an alias of `DataHash` (merklehash/src/lib.rs:49)
@@ -90,6 +92,14 @@ pub trait Read {
 }
 #[verifier::external_body]
 fn vx_u32_from_le_bytes(b: [u8; 4]) -> (r: u32) { u32::from_le_bytes(b) }
+#[verifier::external_body]
+fn vx_size_of_ident() -> (r: usize) ensures r == 7 { std::mem::size_of::<CasObjectIdent>() }
+pub trait AsyncRead: Read {
+    // AsyncReadExt::read: some bytes (possibly none) are read
+    fn read(&mut self, buf: &mut [u8]) -> (r: Result<usize, IoError>)
+        ensures final(self).bytes() == old(self).bytes(), final(buf)@.len() == old(buf)@.len();
+}
+pub trait Unpin {}
 pub trait Seek: Read {
     // std::io::Seek::seek: the new position is returned; content never changes; on error the position is unspecified
     fn seek(&mut self, p: SeekFrom) -> (r: Result<u64, IoError>)
@@ -358,6 +368,90 @@ impl CasObjectInfoV1 {
 //@ end
 }
 
+// ==== the asynchronous footer parsers (R1 erases async/await): the same postconditions as the synchronous ones, so "sync == async" is literal =====
+#[verifier::external_body]
+fn read_bytes_async<R: Read>(reader: &mut R, val: &mut [u8]) -> (r: Result<(), IoError>)
+    ensures final(val)@.len() == old(val)@.len(), final(reader).navail() == old(reader).navail(), final(reader).bytes() == old(reader).bytes(),
+        r is Ok ==> final(reader).nread() == old(reader).nread() + old(val)@.len() && final(reader).nread() <= final(reader).navail() { unimplemented!() }
+#[verifier::external_body]
+fn read_u8_async<R: Read>(reader: &mut R) -> (r: Result<u8, IoError>)
+    ensures final(reader).navail() == old(reader).navail(), final(reader).bytes() == old(reader).bytes(), r is Ok ==> final(reader).nread() == old(reader).nread() + 1 && final(reader).nread() <= final(reader).navail() { unimplemented!() }
+#[verifier::external_body]
+fn read_u32_async<R: Read>(reader: &mut R) -> (r: Result<u32, IoError>)
+    ensures final(reader).navail() == old(reader).navail(), final(reader).bytes() == old(reader).bytes(), r is Ok ==> final(reader).nread() == old(reader).nread() + 4 && final(reader).nread() <= final(reader).navail() { unimplemented!() }
+#[verifier::external_body]
+fn read_hash_async<R: Read>(reader: &mut R) -> (r: Result<MerkleHash, IoError>)
+    ensures final(reader).navail() == old(reader).navail(), final(reader).bytes() == old(reader).bytes(), r is Ok ==> final(reader).nread() == old(reader).nread() + 32 && final(reader).nread() <= final(reader).navail() { unimplemented!() }
+// `..Default::default()` in deserialize_async_v1 (the trait impl; under contract in U-XORBIDX: empty tables)
+pub closed spec fn info_default_tables_empty(r: CasObjectInfoV1) -> bool { r.chunk_hashes@.len() == 0 && r.chunk_boundary_offsets@.len() == 0 && r.unpacked_chunk_offsets@.len() == 0 }
+impl Default for CasObjectInfoV1 {
+    #[verifier::external_body]
+    fn default() -> (r: Self) ensures info_default_tables_empty(r) { unimplemented!() }
+}
+impl CasObjectInfoV0 {
+    // v0 async parser (nested fn item + manual byte counting; not extractable): reads 52 + 36*num_chunks bytes that exist, fills both tables
+    #[verifier::external_body]
+    fn deserialize_async<R: AsyncRead + Unpin>(reader: &mut R, version: u8) -> (r: Result<(Self, u32), CasObjectError>)
+        ensures final(reader).bytes() == old(reader).bytes(),
+            r matches Ok((s, _)) ==> info_v0_tables_ok(s) && s.ident == CAS_OBJECT_FORMAT_IDENT && 52 + 36 * s.num_chunks <= old(reader).bytes().len()
+    { unimplemented!() }
+}
+impl CasObjectInfoV1 {
+//@ extract cas_object/src/cas_object_format.rs in `impl CasObjectInfoV1` fn deserialize_async_v1
+//@ ret ret
+//@ rules R15 R4u
+//@ subst `countio::Counter::new(reader)` => `Counter::new(reader)` :: R11 stub type for the countio dependency
+//@ subst `s.chunk_hashes.reserve(` => `vx_reserve(&mut s.chunk_hashes, ` :: R11 stub for Vec::reserve carrying the allocation cap as precondition
+//@ subst `s.chunk_boundary_offsets.reserve(` => `vx_reserve(&mut s.chunk_boundary_offsets, ` :: as above
+//@ subst `s.unpacked_chunk_offsets.reserve(` => `vx_reserve(&mut s.unpacked_chunk_offsets, ` :: as above
+//@ contract
+        requires old(reader).bytes().len() + 8 <= u32::MAX,
+        ensures
+            final(reader).bytes() == old(reader).bytes(),
+            /*@C07*/ ret matches Ok((s, n)) ==> info_offsets_filled(s),
+            /*@C08*/ ret matches Ok((s, n)) ==> info_tables_ok(s),
+            /*@C08*/ ret matches Ok((s, n)) ==> info_wire_ok(s) && s.boundaries_version == CAS_OBJECT_FORMAT_BOUNDARIES_VERSION,
+//@ loop 1
+            invariant
+                reader.bytes() == old(reader).bytes(), old(reader).bytes().len() + 8 <= u32::MAX,
+                r.n <= r.avail, r.avail <= old(reader).bytes().len(),
+                s.ident == CAS_OBJECT_FORMAT_IDENT, s.version == CAS_OBJECT_FORMAT_VERSION, s.ident_hash_section == CAS_OBJECT_FORMAT_IDENT_HASHES, s.hashes_version == CAS_OBJECT_FORMAT_HASHES_VERSION,
+                s.chunk_hashes@.len() == vx_u, s.chunk_boundary_offsets@.len() == 0, s.unpacked_chunk_offsets@.len() == 0,
+                r.n == hash_section_begin_byte_offset + 12 + 32 * vx_u, hash_section_begin_byte_offset == 32,
+//@ loop 2
+            invariant
+                reader.bytes() == old(reader).bytes(), old(reader).bytes().len() + 8 <= u32::MAX,
+                r.n <= r.avail, r.avail <= old(reader).bytes().len(),
+                s.ident == CAS_OBJECT_FORMAT_IDENT, s.version == CAS_OBJECT_FORMAT_VERSION, s.ident_hash_section == CAS_OBJECT_FORMAT_IDENT_HASHES, s.hashes_version == CAS_OBJECT_FORMAT_HASHES_VERSION,
+                s.ident_boundary_section == CAS_OBJECT_FORMAT_IDENT_BOUNDARIES, s.boundaries_version == CAS_OBJECT_FORMAT_BOUNDARIES_VERSION,
+                s.chunk_hashes@.len() == num_chunks_2, num_chunks_2 == num_chunks_3, s.chunk_boundary_offsets@.len() == vx_u, s.unpacked_chunk_offsets@.len() == 0,
+                hash_section_begin_byte_offset == 32, boundary_section_begin_byte_offset == 44 + 32 * num_chunks_2,
+                r.n == boundary_section_begin_byte_offset + 12 + 4 * vx_u,
+//@ loop 3
+            invariant
+                reader.bytes() == old(reader).bytes(), old(reader).bytes().len() + 8 <= u32::MAX,
+                r.n <= r.avail, r.avail <= old(reader).bytes().len(),
+                s.ident == CAS_OBJECT_FORMAT_IDENT, s.version == CAS_OBJECT_FORMAT_VERSION, s.ident_hash_section == CAS_OBJECT_FORMAT_IDENT_HASHES, s.hashes_version == CAS_OBJECT_FORMAT_HASHES_VERSION,
+                s.ident_boundary_section == CAS_OBJECT_FORMAT_IDENT_BOUNDARIES, s.boundaries_version == CAS_OBJECT_FORMAT_BOUNDARIES_VERSION,
+                s.chunk_hashes@.len() == num_chunks_2, num_chunks_2 == num_chunks_3, s.chunk_boundary_offsets@.len() == num_chunks_3, s.unpacked_chunk_offsets@.len() == vx_u,
+                hash_section_begin_byte_offset == 32, boundary_section_begin_byte_offset == 44 + 32 * num_chunks_2,
+                r.n == boundary_section_begin_byte_offset + 12 + 4 * num_chunks_3 + 4 * vx_u,
+//@ end
+
+//@ extract cas_object/src/cas_object_format.rs in `impl CasObjectInfoV1` fn deserialize_async
+//@ ret ret
+//@ rules R15
+//@ contract
+        requires old(reader).bytes().len() + 8 <= u32::MAX,
+        ensures
+            final(reader).bytes() == old(reader).bytes(),
+            // exactly the postconditions of the synchronous CasObjectInfoV1::deserialize
+            /*@C07*/ ret matches Ok((s, n)) ==> info_offsets_filled(s),
+            /*@C08*/ ret matches Ok((s, n)) ==> info_tables_ok(s),
+            /*@C08*/ ret matches Ok((s, n)) ==> info_wire_ok(s),
+//@ end
+}
+
 // ---- merkle tree stub (merkledb): one file = the chunk list; root is an uninterpreted function of the (hash, length) list ----
 pub uninterp spec fn xorb_root(chunks: Seq<(MerkleHash, nat)>) -> MerkleHash;
 spec fn chunk_pairs(s: Seq<Chunk>) -> Seq<(MerkleHash, nat)> { Seq::new(s.len(), |i: int| (s[i].hash, s[i].length as nat)) }
@@ -415,6 +509,21 @@ proof fn lemma_unpacked_sum_mono(cas: CasObject, bytes: Seq<u8>, i: int, j: int)
     decreases j - i,
 {
     if i < j { lemma_unpacked_sum_mono(cas, bytes, i, j - 1); }
+}
+
+impl CasObject {
+// the asynchronous counterpart of CasObject::deserialize (footer follows the chunks in the stream; ident + version were read by the caller)
+//@ extract cas_object/src/cas_object_format.rs in `impl CasObject` fn deserialize_async
+//@ ret r
+//@ rules R15
+//@ contract
+        requires old(reader).bytes().len() + 8 <= u32::MAX,
+        ensures
+            final(reader).bytes() == old(reader).bytes(),
+            // the same facts about `info` as the synchronous CasObject::deserialize
+            /*@C08*/ r matches Ok(cas) ==> footer_tables_ok(cas) && info_wire_ok(cas.info),
+            /*@C07*/ r matches Ok(cas) ==> info_offsets_filled(cas.info),
+//@ end
 }
 
 impl CasObject {
